@@ -1854,8 +1854,73 @@ def _unroll_record_objects(trees):
                 return [(f, vals[f]) for f in order]
         return None
 
+    def _guard_continue(body):
+        """`if X: continue` as a statement of a loop body is `if not X: <the rest of the body>`."""
+        for k, b in enumerate(body):
+            if isinstance(b, ast.If) and not b.orelse and len(b.body) == 1 and isinstance(b.body[0], ast.Continue):
+                rest = _guard_continue(body[k + 1 :])
+                if not rest:
+                    return body[:k]
+                return body[:k] + [ast.copy_location(ast.If(test=ast.UnaryOp(op=ast.Not(), operand=b.test), body=rest, orelse=[]), b)]
+        return body
+
+    def _chain_text(e):
+        return isinstance(e, ast.Name) or (isinstance(e, ast.Attribute) and _chain_text(e.value))
+
     for t in trees:
         for F in [n for n in ast.walk(t) if isinstance(n, (ast.FunctionDef, ast.AsyncFunctionDef))]:
+            # 0. a list of records built by conditional appends and then looped over:
+            #        L = [C(..)]; if c: L.append(C(..)); for r in L: BODY
+            #    is  for r in (C(..),): BODY; if c: for r in (C(..),): BODY
+            #    (c a plain name / attribute chain that BODY does not rebind; L used nowhere else)
+            for owner in ast.walk(F):
+                for fld in ("body", "orelse", "finalbody"):
+                    blk = getattr(owner, fld, None)
+                    if not (isinstance(blk, list) and blk and isinstance(blk[0], ast.stmt)):
+                        continue
+                    for i, s0 in enumerate(blk):
+                        if not (isinstance(s0, ast.Assign) and len(s0.targets) == 1 and isinstance(s0.targets[0], ast.Name) and isinstance(s0.value, (ast.List,)) and s0.value.elts and all(ctor(e) is not None for e in s0.value.elts)):
+                            continue
+                        L = s0.targets[0].id
+                        j = i + 1
+                        cond = []
+                        while j < len(blk):
+                            sj = blk[j]
+                            if (isinstance(sj, ast.If) and not sj.orelse and len(sj.body) == 1 and isinstance(sj.body[0], ast.Expr) and isinstance(sj.body[0].value, ast.Call) and src(sj.body[0].value.func) == L + ".append"
+                                    and len(sj.body[0].value.args) == 1 and ctor(sj.body[0].value.args[0]) is not None and _chain_text(sj.test)):
+                                cond.append((sj.test, sj.body[0].value.args[0]))
+                                j += 1
+                            else:
+                                break
+                        if j >= len(blk) or not cond:
+                            continue
+                        lp = blk[j]
+                        if not (isinstance(lp, ast.For) and not lp.orelse and isinstance(lp.iter, ast.Name) and lp.iter.id == L and isinstance(lp.target, ast.Name)):
+                            continue
+                        n_use = sum(1 for x in ast.walk(F) if isinstance(x, ast.Name) and x.id == L)
+                        if n_use != 2 + len(cond):
+                            continue
+                        stores = {src(x) for b in lp.body for x in ast.walk(b) if isinstance(x, (ast.Name, ast.Attribute)) and isinstance(getattr(x, "ctx", None), (ast.Store, ast.Del))}
+                        if any(src(c_) == st_ or src(c_).startswith(st_ + ".") for c_, _ in cond for st_ in stores) or any(isinstance(x, ast.Break) for b in lp.body for x in ast.walk(b)):
+                            continue
+                        new = [ast.copy_location(ast.For(target=lp.target, iter=ast.Tuple(elts=list(s0.value.elts), ctx=ast.Load()), body=lp.body, orelse=[]), lp)]
+                        for k_, (c_, e_) in enumerate(cond):
+                            tn_ = f"{lp.target.id}_c{k_}"
+
+                            class _Rt(ast.NodeTransformer):
+                                def visit_Name(self, n_):
+                                    if n_.id == lp.target.id:
+                                        return ast.copy_location(ast.Name(id=tn_, ctx=n_.ctx), n_)
+                                    return n_
+
+                            new.append(ast.copy_location(ast.If(test=c_, body=[ast.copy_location(ast.For(target=ast.Name(id=tn_, ctx=ast.Store()), iter=ast.Tuple(elts=[e_], ctx=ast.Load()), body=[_Rt().visit(_copy.deepcopy(b_)) for b_ in lp.body], orelse=[]), lp)], orelse=[]), lp))
+                        blk[i : j + 1] = [ast.fix_missing_locations(x) for x in new]
+                        break
+            for lp in [x for x in ast.walk(F) if isinstance(x, ast.For) and isinstance(x.iter, (ast.Tuple, ast.List)) and x.iter.elts and all(ctor(e) is not None for e in x.iter.elts)]:
+                if not any(isinstance(x, ast.Continue) for b in lp.body for x in ast.walk(b) if not isinstance(b, ast.If) or b.orelse or len(b.body) != 1 or not isinstance(b.body[0], ast.Continue)) or True:
+                    nb = _guard_continue(list(lp.body))
+                    if nb and not any(isinstance(x, ast.Continue) for b in nb for x in ast.walk(b)):
+                        lp.body = [ast.fix_missing_locations(b) for b in nb]
             # 1. loops over literal tuples of records
             for owner in ast.walk(F):
                 for fld in ("body", "orelse", "finalbody"):
